@@ -15,7 +15,7 @@ func init() { hx.Register("C12", Run, Replay) }
 type kase struct {
 	Seed  uint64 `json:"seed"`
 	Index int    `json:"index"`
-	Mode  string `json:"mode"` // doc | layout | fixed
+	Mode  string `json:"mode"` // doc | layout | fixed | nested | e2e
 	Name  string `json:"name,omitempty"`
 }
 
@@ -230,6 +230,16 @@ func fixedDocs() map[string]ldoc {
 		"h1-h2-p":       one(h(1, "ha1z"), h(2, "hb2z"), para("pa3z")),
 		"p-h4-p":        one(para("pa1z"), h(4, "ha2z"), para("pb3z")),
 		"h3-h2-h1-deep": one(h(3, "ha1z"), h(2, "hb2z"), h(1, "hc3z"), h(2, "hd4z"), h(6, "he5z"), h(4, "hf6z"), para("pa7z")),
+		// H1 > H2 > H3 > three sibling H4 sections (one per page) > two sibling H5, then a second H3
+		"deep-siblings": {Pages: []lpage{
+			{Number: 1, Elems: []lelem{h(1, "ha1z"), h(2, "hb2z"), h(3, "hc3z"), h(4, "hd4z"), para("pa5z")}},
+			{Number: 2, Elems: []lelem{h(4, "he6z"), para("pb7z")}},
+			{Number: 3, Elems: []lelem{h(4, "hf8z"), para("pc9z")}},
+			{Number: 4, Elems: []lelem{h(5, "hg10z"), para("pd11z")}},
+			{Number: 5, Elems: []lelem{h(5, "hh12z"), para("pe13z")}},
+			{Number: 6, Elems: []lelem{h(3, "hi14z"), para("pf15z")}},
+			{Number: 7, Elems: []lelem{h(6, "hj16z"), para("pg17z")}},
+			{Number: 8, Elems: []lelem{h(6, "hk18z"), para("ph19z")}}}},
 		"two-pages": {Pages: []lpage{{Number: 1, Elems: []lelem{h(1, "ha1z"), para("pa2z")}}, {Number: 2}, {Number: 3, Elems: []lelem{para("pb3z"), h(2, "hb4z"),
 			{Kind: "l", Items: []litem{{0, "la5z"}, {1, "lb6z"}, {0, "lc7z"}}}, {Kind: "t", Rows: [][]string{{"ta8z", "tb9z"}, {"tc10z", "td11z"}}}, {Kind: "i", Text: "ia12z"}}}}},
 	}
@@ -285,7 +295,7 @@ func runIndex(c *hx.Ctx, idx int, mode string) {
 }
 
 func Run(c *hx.Ctx) {
-	c.Rep.Rule = "random logical documents (0-9 pages, 0-8 elements per page: headings of levels 1-6 in any order, paragraphs of 1 word .. 4x the configured maximum, nested ordered/unordered lists, ragged tables, images with/without alt text, empty pages, pages without layout, non-consecutive page numbers, heading-like paragraphs matched through the table of contents) built as model.Document with Elements and Layout filled consistently; every text is made of words unique in the document; x all size presets and random custom size configurations (characters, tokens, words, sentences, paragraphs) x both chunkers (layout-based chunker with default, RAG-optimized and random ChunkerConfig); non-trivial = at least one element"
+	c.Rep.Rule = "random logical documents (0-9 pages, 0-8 elements per page: headings of levels 1-6 in any order, paragraphs of 1 word .. 4x the configured maximum, nested ordered/unordered lists, ragged tables, images with/without alt text, empty pages, pages without layout, non-consecutive page numbers, heading-like paragraphs matched through the table of contents) built as model.Document with Elements and Layout filled consistently; every text is made of words unique in the document; x all size presets and random custom size configurations (characters, tokens, words, sentences, paragraphs) x both chunkers (layout-based chunker with default, RAG-optimized and random ChunkerConfig); plus outline documents (heading nesting 2-6 deep, 2-4 sibling sections under one parent at every depth, each with its own body, one section per page or several, skipped and uneven sibling levels) through the element-based chunker and through the layout-based chunker under every MinHeadingLevel 1..6 with random non-size options; non-trivial = at least one element"
 	fd := fixedDocs()
 	for _, name := range hx.SortedKeys(fd) {
 		d := fd[name]
@@ -303,6 +313,11 @@ func Run(c *hx.Ctx) {
 	tieBudget = c.N(4000000, 40000000)
 	for i := 0; i < m; i++ {
 		runIndex(c, 1000000+i, "layout")
+	}
+	q := c.N(150, 1500)
+	tieBudget = c.N(1500000, 15000000)
+	for i := 0; i < q; i++ {
+		runNested(c, 3000000+i)
 	}
 	runEndToEnd(c)
 }
@@ -326,6 +341,9 @@ func Replay(c *hx.Ctx, ks map[string]interface{}) {
 	case "doc", "layout":
 		tieBudget = 0
 		runIndex(c, int(idx), mode)
+	case "nested":
+		tieBudget = 0
+		runNested(c, int(idx))
 	case "e2e":
 		runEndToEnd(c)
 	}
